@@ -507,7 +507,7 @@ func (s *StreamOpenAck) Encode() []byte {
 
 // DecodeStreamOpenAck deserializes StreamOpenAck from bytes.
 func DecodeStreamOpenAck(buf []byte) (*StreamOpenAck, error) {
-	if len(buf) < 12+EphemeralKeySize { // 8 + 1 + 1 + 2 + 32 minimum (empty addr + key)
+	if len(buf) < 11+EphemeralKeySize { // 8 + 1 + 0 + 2 + 32 minimum (empty addr + key)
 		return nil, fmt.Errorf("%w: StreamOpenAck too short", ErrInvalidFrame)
 	}
 
@@ -1553,7 +1553,7 @@ func (u *UDPOpenAck) Encode() []byte {
 
 // DecodeUDPOpenAck deserializes UDPOpenAck from bytes.
 func DecodeUDPOpenAck(buf []byte) (*UDPOpenAck, error) {
-	if len(buf) < 12+EphemeralKeySize { // 8 + 1 + 1 + 2 + 32 minimum
+	if len(buf) < 11+EphemeralKeySize { // 8 + 1 + 0 + 2 + 32 minimum (empty addr + key)
 		return nil, fmt.Errorf("%w: UDPOpenAck too short", ErrInvalidFrame)
 	}
 
@@ -2206,7 +2206,8 @@ func DecodeQueuedState(buf []byte) (*QueuedState, error) {
 
 	// Routes
 	routeCount := int(r.readUint16())
-	q.Routes = make([]RouteAdvertise, 0, routeCount)
+	// Every entry carries a 2-byte length prefix: never reserve more than the input can hold.
+	q.Routes = make([]RouteAdvertise, 0, min(routeCount, r.remaining()/2))
 	for i := 0; i < routeCount && r.err == nil; i++ {
 		length := int(r.readUint16())
 		data := r.readBytes(length)
@@ -2222,7 +2223,7 @@ func DecodeQueuedState(buf []byte) (*QueuedState, error) {
 
 	// Withdraws
 	withdrawCount := int(r.readUint16())
-	q.Withdraws = make([]RouteWithdraw, 0, withdrawCount)
+	q.Withdraws = make([]RouteWithdraw, 0, min(withdrawCount, r.remaining()/2))
 	for i := 0; i < withdrawCount && r.err == nil; i++ {
 		length := int(r.readUint16())
 		data := r.readBytes(length)
@@ -2238,7 +2239,7 @@ func DecodeQueuedState(buf []byte) (*QueuedState, error) {
 
 	// NodeInfos
 	nodeInfoCount := int(r.readUint16())
-	q.NodeInfos = make([]NodeInfoAdvertise, 0, nodeInfoCount)
+	q.NodeInfos = make([]NodeInfoAdvertise, 0, min(nodeInfoCount, r.remaining()/2))
 	for i := 0; i < nodeInfoCount && r.err == nil; i++ {
 		length := int(r.readUint16())
 		data := r.readBytes(length)
@@ -2259,7 +2260,8 @@ func DecodeQueuedState(buf []byte) (*QueuedState, error) {
 		sleepCmd, err := DecodeSleepCommand(sleepData)
 		if err == nil {
 			q.SleepCmd = sleepCmd
-			r.offset += 33 + len(sleepCmd.SeenBy)*16 // Advance past sleep command
+			// Advance past the sleep command: origin + id + timestamp + signature + seenBy count + seenBy
+			r.offset += 16 + 8 + 8 + SignatureSize + 1 + len(sleepCmd.SeenBy)*16
 		}
 	}
 
